@@ -248,7 +248,7 @@ inductive Step where
   | found (v : List UInt8)                   -- value node
   | next (keyrest : List Nib) (h : List UInt8)  -- hash node: continue there
   | crash                                    -- Go panics (key exhausted at a full node)
-  deriving Inhabited
+  deriving Inhabited, BEq
 
 /-- proof.go `get(tn, key)` -/
 def pget : Nat → PNode → List Nib → Step
@@ -304,6 +304,50 @@ def keyed (H : Hash) (proof : List (List UInt8)) : ProofDb := proof.map fun b =>
 
 def verify (H : Hash) (root : List UInt8) (key : List Nib) (proof : List (List UInt8)) : VRes :=
   verifyRaw (verifyFuel (keyed H proof) key) (keyed H proof) root key
+
+/-! ### node-level stepping (specification side of the codec hypothesis of `proof_complete_partial`) -/
+
+/-- is the node referenced by hash from its parent (encoding of 32 bytes or more)? -/
+def isHashed (H : Hash) (n : Node) : Bool :=
+  match enc H n with
+  | .str _ => false
+  | .list l => decide (32 ≤ (Rlp.encode (.list l)).length)
+
+/-- one step of verification at node level: walk through a stored node and the nodes embedded in it,
+until a value, a dead end, or a child that is referenced by hash -/
+def nstep (H : Hash) : Node → List Nib → Step
+  | .empty, _ => .absent
+  | .value v, _ => .found v
+  | .short k c, key =>
+    match splitCommon key k with
+    | (_, rest, []) => if isHashed H c then .next rest (H (encBytes H c)) else nstep H c rest
+    | _ => .absent
+  | .full _, [] => .crash
+  | .full cs, i :: rest =>
+    if isHashed H (cs i) then .next rest (H (encBytes H (cs i))) else nstep H (cs i) rest
+
+/-- executable instance check of the codec hypothesis: decoding the encoding of `n` and stepping through
+the result with `key` equals stepping through `n` itself -/
+def codecHoldsAt (H : Hash) (n : Node) (key : List Nib) : Bool :=
+  let b := encBytes H n
+  match decodeNode (decodeFuel b) b with
+  | .ok pn => pget (b.length + 2) pn key == nstep H n key
+  | .error _ => false
+
+/-- … for every node `Prove` collects for `key`, each with the part of the key that reaches it and with
+the extra probe keys -/
+def codecHoldsOnPath (H : Hash) : Node → List Nib → List (List Nib) → Bool
+  | _, [], _ => true
+  | .empty, _ :: _, _ => true
+  | .value _, _ :: _, _ => true
+  | .short k n, x :: xs, probes =>
+    (codecHoldsAt H (.short k n) (x :: xs) && probes.all (codecHoldsAt H (.short k n))) &&
+      (match splitCommon (x :: xs) k with
+       | (_, rest, []) => codecHoldsOnPath H n rest probes
+       | _ => true)
+  | .full cs, i :: rest, probes =>
+    (codecHoldsAt H (.full cs) (i :: rest) && probes.all (codecHoldsAt H (.full cs))) &&
+      codecHoldsOnPath H (cs i) rest probes
 
 /-! ### SecureTrie and DeriveSha -/
 
